@@ -21,3 +21,10 @@ Proof. reflexivity. Qed.
 
 Lemma source_shape_recognised : src_shape_ok = true.
 Proof. reflexivity. Qed.
+
+(* The model's step IStop sets `done` idempotently: the second direction that ends finds it closed and
+   nothing else happens.  That is what closing the channel under a sync.Once gives; a check-then-close
+   that is not atomic would close twice (a Go panic: the whole process dies instead of Proxy returning)
+   when both directions end together, e.g. on proxy shutdown. *)
+Lemma source_closes_done_at_most_once : src_done_closed_at_most_once = true.
+Proof. reflexivity. Qed.
